@@ -295,7 +295,8 @@ impl Observer for C15Obs<'_> {
         }
         // limit clause: right after an append, with the worker parked/idle since before the call
         let step_op = self.case.hist.steps.get(info.step).map(|s| &s.op);
-        if info.after_op && info.op_ok && matches!(step_op, Some(Op::Append(es)) if !es.is_empty()) {
+        // after every append that inserted something - including the accepted prefix of a batch that was then refused
+        if info.after_op && info.applied_records > 0 && matches!(step_op, Some(Op::Append(es)) if !es.is_empty()) {
             let over = n > s.payload_cache_max_item || bytes > s.payload_cache_capacity;
             if over {
                 self.over_limit_observations += 1;
